@@ -384,25 +384,39 @@ def w3(ctx, rep, e, ev, r, oks, tag, where):
             bydiff.append((t, list(gates)))
     for v in oks:
         walk_gated(v, [], visit, set())
-    # the DHW carriers left after removing auxiliaries / low-SCOP ambient energy: last Carrier-keyed map of the entry
-    cand = None
+    # the map of DHW carriers the code consults before taking the biomass share by difference: among the
+    # Carrier-keyed maps of numbers built by the entry, the one whose "X is absent" tests for non-nearby X
+    # occur as literals of the path condition of the by-difference term (no local name is used)
+    nearby = nearby_carriers(ctx)
+    cands = {}
     for c in sorted(ev.store.cells):
         v = ev.store.cells[c]
-        if isinstance(v, tm.T) and v.op == "emap" and v.a[0] == "Carrier" and ev.cell_names.get(c, "").startswith("dhw_used"):
-            cand = v
-    if cand is None:
-        rep.violated("C15/W3/biomass-mixed/anchor/" + tag, "the set of carriers supplying DHW is a map over Carrier", construct=where,
-                     why="no Carrier-keyed map named dhw_used* found in the entry")
-        return
-    pres = dict((name, p) for name, p, _v in epmodel.emap_items(cand))
-    nearby = nearby_carriers(ctx)
-    if not bydiff:
-        rep.violated("C15/W3/biomass-mixed/present/" + tag, "biomass alone with nearby carriers is computed by difference from the demand",
-                     construct=where, why="no (demand - nearby non-biomass) term found")
+        if isinstance(v, tm.T) and v.op == "emap" and v.a[0] == "Carrier" and \
+                all(not (isinstance(x, tm.T) and x.op in ("adt", "emap")) for x in v.a[2::2]):
+            cands[v.id] = v
     case_gates = []
     for g, leaf in api.result_cases(r):
         if leaf.op == "adt" and leaf.a[0] == "Result" and leaf.a[1] == 0 and leaf.a[2] is not tm.ZERO:
             case_gates = g
+    lits = set()
+    for t, gates in bydiff:
+        for c in conjuncts(list(case_gates) + gates):
+            lits.add(c.id)
+    best, cand = 0, None
+    for v in cands.values():
+        pm = dict((name, p) for name, p, _v in epmodel.emap_items(v))
+        score = sum(1 for name, p in pm.items() if name not in nearby and p is not tm.FALSE and tm.not_(p).id in lits)
+        if score > best:
+            best, cand = score, v
+    if cand is None or best < 3:
+        rep.violated("C15/W3/biomass-mixed/anchor/" + tag, "the by-difference formula is guarded by the absence of non-nearby DHW carriers",
+                     construct=where, why="no Carrier-keyed map of the entry has its non-nearby entries tested on the path to the by-difference term "
+                     "(%d candidate maps, best match %d)" % (len(cands), best))
+        return
+    pres = dict((name, p) for name, p, _v in epmodel.emap_items(cand))
+    if not bydiff:
+        rep.violated("C15/W3/biomass-mixed/present/" + tag, "biomass alone with nearby carriers is computed by difference from the demand",
+                     construct=where, why="no (demand - nearby non-biomass) term found")
     every_biomass_system_declares_output(ev, r, rep, tag, where)
     for name in sorted(pres):
         if name in nearby:
